@@ -69,7 +69,9 @@ func (h HTLC) Validate() error {
 	if h.ExpirationHeight == 0 {
 		return errorsmod.Wrapf(ErrInvalidExpirationHeight, "expire height cannot be 0")
 	}
-	if h.Timestamp == 0 {
+	// the timestamp of a plain HTLC is optional (the hash lock is then made of the secret alone);
+	// a cross-chain transfer is only created with a timestamp close to the block time
+	if h.Transfer && h.Timestamp == 0 {
 		return errorsmod.Wrapf(ErrInvalidTimestamp, "timestamp cannot be 0")
 	}
 	if err := ValidateAmount(h.Transfer, h.Amount); err != nil {
